@@ -13,6 +13,7 @@ import (
 	"sort"
 	"strconv"
 	"strings"
+	"time"
 	"unicode"
 	"unicode/utf8"
 
@@ -287,9 +288,66 @@ func wayCase(class string, ids []int64, tags osm.Tags) *wire.Case {
 	return wayCaseN(class, annotate(ids, pat), tags)
 }
 
+// The other fields of the way (and of a relation) are varied too; none of them may matter.
+const nEnvelopes = 6
+
+var envCounter int
+
+var someTime = time.Date(2015, 3, 4, 5, 6, 7, 0, time.UTC)
+
+func wayEnvelope(w *osm.Way, i int) string {
+	switch i {
+	case 1:
+		w.ID, w.Version, w.Visible = 0, 0, false
+		return "id 0, version 0, not visible"
+	case 2:
+		w.ID, w.User, w.UserID, w.ChangesetID, w.Timestamp = -5, "someone", 42, 99, someTime
+		return "negative id, user, changeset, timestamp"
+	case 3:
+		w.Updates = osm.Updates{{Index: 0, Version: 2, Timestamp: someTime, Lat: 1, Lon: 2}, {Index: 3, Version: 2, Timestamp: someTime, Lat: 1, Lon: 2}}
+		return "with node updates at index 0 and 3 (same location)"
+	case 4:
+		t := someTime
+		w.Committed = &t
+		w.Bounds = &osm.Bounds{MinLat: 1, MaxLat: 2, MinLon: 3, MaxLon: 4}
+		return "committed time and bounds set"
+	case 5:
+		w.Visible, w.Version = false, 3
+		return "deleted version (visible=false)"
+	}
+	return "id 7, version 1, visible"
+}
+
+func relEnvelope(r *osm.Relation, i int) string {
+	switch i {
+	case 1:
+		r.ID, r.Version, r.Visible, r.Members = 0, 0, false, nil
+		return "id 0, version 0, not visible, no members"
+	case 2:
+		r.Members = osm.Members{{Type: osm.TypeWay, Ref: 1, Role: "outer"}, {Type: osm.TypeWay, Ref: 2, Role: "inner"}}
+		r.User, r.UserID, r.Timestamp = "someone", 42, someTime
+		return "outer and inner way members, user, timestamp"
+	case 3:
+		r.Members = osm.Members{{Type: osm.TypeNode, Ref: 1, Role: "admin_centre"}, {Type: osm.TypeRelation, Ref: 2, Role: "subarea"}}
+		return "node and relation members only"
+	case 4:
+		t := someTime
+		r.Committed = &t
+		r.Updates = osm.Updates{{Index: 0, Version: 2, Timestamp: someTime}}
+		return "committed time and member updates"
+	case 5:
+		r.Members = osm.Members{{Type: osm.TypeWay, Ref: 1, Role: ""}}
+		r.Visible = false
+		return "one way member without role, not visible"
+	}
+	return "id 9, one outer way member"
+}
+
 func wayCaseN(class string, ns []wn, tags osm.Tags) *wire.Case {
 	ids := idsOf(ns)
 	w := &osm.Way{ID: 7, Version: 1, Visible: true, Tags: cloneTags(tags)}
+	envCounter++
+	envName := wayEnvelope(w, envCounter%nEnvelopes)
 	var shown []interface{}
 	for _, n := range ns {
 		if n.ann {
@@ -312,7 +370,7 @@ func wayCaseN(class string, ns []wn, tags osm.Tags) *wire.Case {
 	}
 	putTags(c, tags)
 	c.Int(int64(obs))
-	d := map[string]interface{}{"call": "Way.Polygon", "node_ids": ids, "way_nodes": shown, "tags": showTags(tags), "observed": obsName(obs)}
+	d := map[string]interface{}{"call": "Way.Polygon", "node_ids": ids, "way_nodes": shown, "tags": showTags(tags), "other_way_fields": envName, "observed": obsName(obs)}
 	if distinctKeys(tags) {
 		exp := specWay(ids, tags) // from the refs alone
 		d["expected"] = exp
@@ -332,12 +390,14 @@ func wayCaseN(class string, ns []wn, tags osm.Tags) *wire.Case {
 func relCase(class string, tags osm.Tags) *wire.Case {
 	r := &osm.Relation{ID: 9, Version: 1, Visible: true, Tags: cloneTags(tags),
 		Members: osm.Members{{Type: osm.TypeWay, Ref: 1, Role: "outer"}}}
+	envCounter++
+	envName := relEnvelope(r, envCounter%nEnvelopes)
 	obs := callRel(r)
 	c := &wire.Case{Class: class}
 	c.Int(2)
 	putTags(c, tags)
 	c.Int(int64(obs))
-	d := map[string]interface{}{"call": "Relation.Polygon", "tags": showTags(tags), "observed": obsName(obs)}
+	d := map[string]interface{}{"call": "Relation.Polygon", "tags": showTags(tags), "other_relation_fields": envName, "observed": obsName(obs)}
 	if distinctKeys(tags) {
 		exp := specRel(tags)
 		d["expected"] = exp
@@ -469,7 +529,7 @@ func main() {
 	a := wire.ParseArgs()
 	rng := wire.Rng(a.Seed)
 	w := wire.NewWriter("C18", a.Seed, a.Tier)
-	w.Rule = "single-key sweep (exhaustive): every rule key (run-time table + published table) x (every value listed for any key + specials \"\", no, yes, unlisted, No, ... + byte-order neighbours of the key's own listed values [thorough: of all listed values]) x area in {absent, \"\", no, yes, x}, both tag orders alternating, on a closed 4-ring; length sweep 0..7 x closed/open/all-equal x tag sets; every id sequence over {1,2,3} of length 0..5; way nodes are full WayNode values: half of all way cases bare refs, the others rotate through 7 annotation patterns (own location per position, same spot at both ends with different ids, ends only, one end only, all on one spot, version without location) plus a dedicated pattern x refs x tag-set sweep and random nodes over small id/version/location alphabets; near-miss keys (rule key, area, type with a space/colon/s/NUL added, a byte dropped, upper case) with firing values; pairs (list key x any key) x pass/fail/no values x both orders; random tag sets in 3-6 (or all) orders; irrelevant and near-miss keys inserted; duplicate keys (model only); relations: type values x other tags x positions; Tags.Find on present/absent/near-miss keys; the run-time table. distinct = distinct token streams; trivial = none."
+	w.Rule = "single-key sweep (exhaustive): every rule key (run-time table + published table) x (every value listed for any key + specials \"\", no, yes, unlisted, No, ... + byte-order neighbours of the key's own listed values [thorough: of all listed values]) x area in {absent, \"\", no, yes, x}, both tag orders alternating, on a closed 4-ring; length sweep 0..7 x closed/open/all-equal x tag sets; every id sequence over {1,2,3} of length 0..5; way nodes are full WayNode values: half of all way cases bare refs, the others rotate through 7 annotation patterns (own location per position, same spot at both ends with different ids, ends only, one end only, all on one spot, version without location) plus a dedicated pattern x refs x tag-set sweep and random nodes over small id/version/location alphabets; near-miss keys (rule key, area, type with a space/colon/s/NUL added, a byte dropped, upper case) with firing values; pairs (list key x any key) x pass/fail/no values x both orders; random tag sets in 3-6 (or all) orders; irrelevant and near-miss keys inserted; duplicate keys (model only); the other fields of Way / Relation (id, version, visible, user, timestamp, committed, updates, bounds, members) rotate through 6 variants and must not matter; relations: type values x other tags x positions; Tags.Find on present/absent/near-miss keys; the run-time table. distinct = distinct token streams; trivial = none."
 	thorough := a.Tier == "thorough"
 
 	rt := osm.VerifPolyConditions()
